@@ -29,7 +29,7 @@ import (
 func init() {
 	for _, p := range []string{"c01", "c02", "c03", "c04", "c05"} {
 		p := p
-		register(&Suite{Name: "e2e_" + p, Parallel: 12,
+		register(&Suite{Name: "e2e_" + p, Parallel: 6,
 			Gen:  func(r *rand.Rand, n int, tier string) []string { return genE2E(r, n, tier, p) },
 			Exec: execE2E,
 			Rule: "datasets of 1..40 events over typed columns (int, dyadic decimal, mixed, text, numeric text, sparse, bool, late) × random batch/flush/rotate histories × queries of profile " + p + "; each case runs in its own engine process; non-trivial = ≥3 events and ≥1 query"})
